@@ -137,13 +137,92 @@ private theorem mapM'_pack_of_unpacked (I : Idna) : ∀ (bs : List Bytes) (ms : 
     obtain ⟨outs, ho⟩ := ih
     exact ⟨b' :: outs, by simp [mapM', hp, ho]⟩
 
-/-- **C26 (no crash, TCP).** -/
-theorem forward_never_crashes_tcp (I : Idna) (data : Bytes) : forwardTcp I data ≠ .crashed := by
-  unfold forwardTcp
-  simp only
+private theorem mapM'_frameC_some : ∀ (outs fs : List Bytes), mapM' frameC outs = some fs →
+    fs = outs.map frame ∧ ∀ b ∈ outs, b.length < 65536 := by
+  intro outs
+  induction outs with
+  | nil => intro fs h; simp [mapM'] at h; subst h; simp
+  | cons b outs ih =>
+    intro fs h
+    simp only [mapM'] at h
+    cases hb : frameC b with
+    | none => simp [hb] at h
+    | some f =>
+      cases hr : mapM' frameC outs with
+      | none => simp [hb, hr] at h
+      | some fs' =>
+        simp [hb, hr] at h; subst h
+        obtain ⟨e, hall⟩ := ih fs' hr
+        have hlt : b.length < 65536 ∧ f = frame b := by
+          unfold frameC at hb
+          split at hb
+          · cases hb; exact ⟨by assumption, rfl⟩
+          · cases hb
+        refine ⟨by simp [hlt.2, e], ?_⟩
+        intro x hx
+        rcases List.mem_cons.mp hx with rfl | hx
+        · exact hlt.1
+        · exact hall x hx
+
+private theorem mapM'_frameC_fits : ∀ (outs : List Bytes), (∀ b ∈ outs, b.length < 65536) →
+    mapM' frameC outs = some (outs.map frame) := by
+  intro outs
+  induction outs with
+  | nil => intro _; rfl
+  | cons b outs ih =>
+    intro h
+    have hb : frameC b = some (frame b) := by simp [frameC, h b (by simp)]
+    simp [mapM', hb, ih (fun x hx => h x (by simp [hx]))]
+
+/-- every message of a segment that the codec decodes re-encodes: `reencodings` is never an exception -/
+theorem reencodings_defined (I : Idna) (data : Bytes) : ∃ outs, reencodings I data = some outs := by
+  unfold reencodings
   obtain ⟨bs1, bs2, _, hrel, _⟩ := unpackAll_spec I _ _ _ (rfl : unpackAll I (tcpFrames data.length data).1 = (_, _))
-  obtain ⟨outs, ho⟩ := mapM'_pack_of_unpacked I bs1 _ hrel
-  simp [ho]
+  exact mapM'_pack_of_unpacked I bs1 _ hrel
+
+/-- **C26 (when forwarding a TCP segment raises).** Exactly when one of the re-encoded messages is longer than 65535
+    bytes: `struct.pack("!H", len(packed))` in `pack_message` raises and nothing in layers/dns.py catches it
+    (finding F-C26b; the re-encoding expands every compression pointer, so a small compressed message can exceed
+    the limit). -/
+theorem forward_tcp_crash_iff (I : Idna) (data : Bytes) :
+    forwardTcp I data = .crashed ↔ ∃ outs, reencodings I data = some outs ∧ ∃ b' ∈ outs, 65536 ≤ b'.length := by
+  obtain ⟨outs, ho⟩ := reencodings_defined I data
+  have ho' := ho
+  unfold reencodings at ho'
+  unfold forwardTcp
+  simp only [ho']
+  constructor
+  · intro h
+    refine ⟨outs, ho, ?_⟩
+    cases hf : mapM' frameC outs with
+    | some fs => simp [hf] at h
+    | none =>
+      apply Classical.byContradiction
+      intro hne
+      have hall : ∀ b ∈ outs, b.length < 65536 := by
+        intro b hb
+        apply Classical.byContradiction
+        intro hlt
+        exact hne ⟨b, hb, by omega⟩
+      rw [mapM'_frameC_fits outs hall] at hf; cases hf
+  · rintro ⟨outs', ho2, b', hb', hlen⟩
+    rw [ho] at ho2; cases ho2
+    cases hf : mapM' frameC outs with
+    | none => rfl
+    | some fs =>
+      have := (mapM'_frameC_some outs fs hf).2 b' hb'
+      omega
+
+/-- **C26 (no crash, TCP).** If every re-encoded message of the segment fits the 16-bit length prefix, forwarding the
+    segment does not raise. (Restated in round 6: the earlier form without the hypothesis was true of a model whose
+    `frame` wrapped the length silently; the real `pack_message` raises — see `forward_tcp_crash_iff`,
+    `oversize_reencoding_counterexample` and finding F-C26b.) -/
+theorem forward_never_crashes_tcp (I : Idna) (data : Bytes)
+    (hfit : ∀ outs, reencodings I data = some outs → ∀ b' ∈ outs, b'.length < 65536) : forwardTcp I data ≠ .crashed := by
+  intro h
+  obtain ⟨outs, ho, b', hb', hlen⟩ := (forward_tcp_crash_iff I data).mp h
+  have := hfit outs ho b' hb'
+  omega
 
 private theorem frame_toNat (b : Bytes) (h : b.length < 65536) :
     (UInt8.ofNat (b.length / 256)).toNat * 256 + (UInt8.ofNat (b.length % 256)).toNat = b.length := by
@@ -217,18 +296,25 @@ theorem forward_preserves_tcp (I : Idna) (bs : List Bytes) (ds : List DnsRef.RMs
   cases ho : mapM' (pack I) (unpackAll I bs).1 with
   | none => simp [ho] at hf
   | some packed =>
-    simp [ho] at hf
+    simp only [ho] at hf
+    cases hfr : mapM' frameC packed with
+    | none => simp [hfr] at hf
+    | some fs =>
+    simp [hfr] at hf
     obtain ⟨rfl, rfl⟩ := hf
+    obtain ⟨hfs, _⟩ := mapM'_frameC_some packed fs hfr
     rw [hsplit] at hrel
     obtain ⟨ds1, ds2, rfl, hd1, hd2⟩ := Rel2.split_left bs1 bs2 ds hrel
-    refine ⟨packed, ds1, ds2, rfl, rfl, packed_rel I bs1 _ ds1 packed hu hd1 ho, ?_⟩
+    refine ⟨packed, ds1, ds2, hfs, rfl, packed_rel I bs1 _ ds1 packed hu hd1 ho, ?_⟩
     intro hc
     have : bs2 = [] := he hc
     subst this
     cases hd2; rfl
 
 /-- **C26 (opaque types byte for byte).** A record whose type has no name-bearing layout (TXT, A, AAAA, unknown
-    types …) is decoded with exactly the bytes of its RDATA, and `pack` writes `data` verbatim. -/
+    types …) is decoded with exactly the bytes of its RDATA (decode side only; that the forwarded record carries the same
+    bytes is `repack_preserves`: for such a type the specification's rdata is the raw RDATA, see
+    `opaque_rdata_is_raw`). -/
 theorem opaque_types_bytewise (buf : Bytes) (off len ty : Nat) (h : layoutOf ty = none) :
     rrData buf off len ty = some ((buf.drop off).take len) := by
   simp [rrData, h]
@@ -379,21 +465,23 @@ private theorem unpackAll_live (I : Idna) : ∀ (bs : List Bytes) (ds : List Dns
     simp [unpackAll, hu, ih]
 
 /-- **C26 (readable plain messages are delivered, TCP).** A segment of complete frames, each as in
-    `deliverable_is_forwarded`: one frame per message is sent, in order, each read identically by the specification,
-    and the connection stays open. -/
+    `deliverable_is_forwarded`, and each with a re-encoding that fits the 16-bit length prefix: one frame per message is
+    sent, in order, each read identically by the specification, and the connection stays open. (Restated in round 6 with
+    the hypothesis `hfit`: without it the layer raises, `forward_tcp_crash_iff`, finding F-C26b.) -/
 theorem deliverable_is_forwarded_tcp (I : Idna) (bs : List Bytes) (ds : List DnsRef.RMsg)
     (hb : ∀ b ∈ bs, 0 < b.length ∧ b.length < 65536)
-    (hrel : Rel2 (fun b d => DnsRef.decode b = some d ∧ Plain d ∧ Shallow b) bs ds) :
+    (hrel : Rel2 (fun b d => DnsRef.decode b = some d ∧ Plain d ∧ Shallow b) bs ds)
+    (hfit : ∀ outs, reencodings I (bs.flatMap frame) = some outs → ∀ b' ∈ outs, b'.length < 65536) :
     ∃ bs', forwardTcp I (bs.flatMap frame) = .done (bs'.map frame) false ∧
       Rel2 (fun b' d => DnsRef.decode b' = some d) bs' ds := by
   have hrel' : Rel2 (fun b d => DnsRef.decode b = some d) bs ds := by
-    clear hb
+    clear hb hfit
     induction hrel with
     | nil => exact Rel2.nil
     | cons h _ ih => exact Rel2.cons h.1 ih
   have hopen := unpackAll_live I bs ds hrel
   cases hf : forwardTcp I (bs.flatMap frame) with
-  | crashed => exact absurd hf (forward_never_crashes_tcp I _)
+  | crashed => exact absurd hf (forward_never_crashes_tcp I _ hfit)
   | done outs closed =>
     have hclosed : closed = false := by
       have := hf
@@ -402,7 +490,11 @@ theorem deliverable_is_forwarded_tcp (I : Idna) (bs : List Bytes) (ds : List Dns
       simp only at this
       cases ho : mapM' (pack I) (unpackAll I bs).1 with
       | none => simp [ho] at this
-      | some packed => simp [ho, hopen] at this; exact this.2
+      | some packed =>
+        simp only [ho] at this
+        cases hfr : mapM' frameC packed with
+        | none => simp [hfr] at this
+        | some fs => simp [hfr, hopen] at this; exact this.2
     obtain ⟨bs', ds1, ds2, ho, hsplit, hr, hall⟩ := forward_preserves_tcp I bs ds outs closed hb hrel' hf
     have : ds2 = [] := hall hclosed
     subst this
@@ -496,5 +588,78 @@ example : ∀ n ∈ [[[0x77,0x77,0x77],[0x61],[0x69,0x6f]], [[0x61],[0x69,0x6f]]
 -- `live_checked_is_forwarded` on the example: the conclusion obtained through the theorem
 example : ∃ b', forwardUdp noIdna exampleResponse = .done [b'] false ∧ DnsRef.decode b' = DnsRef.decode exampleResponse :=
   live_checked_is_forwarded noIdna exampleResponse (by decide +kernel)
+
+/-! ### round 6 (owner fixes): re-encodings that do not fit a TCP frame -/
+
+private theorem packList_data_le {I : Idna} : ∀ (rs : List RR) (w : Bytes), packList (packRR I) rs = some w →
+    ∀ r ∈ rs, r.data.length ≤ w.length := by
+  intro rs
+  induction rs with
+  | nil => intro w _ r hr; cases hr
+  | cons x rs ih =>
+    intro w h r hr
+    obtain ⟨a, b, hx, hrs, rfl⟩ := packList_cons_some h
+    rcases List.mem_cons.mp hr with rfl | hr
+    · obtain ⟨n, t, c, l, dl, _, _, _, _, _, rfl⟩ := packRR_some hx
+      simp; omega
+    · have := ih b hrs r hr
+      simp; omega
+
+/-- an encoded message is at least as long as its 12-byte header plus any one record's data -/
+private theorem pack_length_ge {I : Idna} {m : Msg} {b : Bytes} (h : pack I m = some b) :
+    ∀ r ∈ m.answers, 12 + r.data.length ≤ b.length := by
+  intro r hr
+  unfold pack at h
+  split at h
+  · cases h
+  · split at h
+    · next a b1 c d e f qs rs ha hb hc hd he hf hqs hrs =>
+      cases h
+      have := packList_data_le _ rs hrs r (by simp [hr])
+      simp [putU16_len ha, putU16_len hb, putU16_len hc, putU16_len hd, putU16_len he, putU16_len hf]; omega
+    · cases h
+
+/-- 65535 zero bytes (never unfolded) -/
+def bigData : Bytes := List.replicate 65535 0
+theorem bigData_len : bigData.length = 65535 := List.length_replicate
+
+/-- one TXT record with 65535 bytes of data under the root name -/
+def oversizeMsg : Msg :=
+  { id := 1, query := false, opCode := 0, aa := false, tc := false, rd := true, ra := true, reserved := 0, rcode := 0,
+    questions := [], answers := [⟨[], 16, 1, 0, bigData⟩], authorities := [], additionals := [] }
+
+/-- **C26 (a re-encoding can be too long for a TCP frame) — counter-example to the unconditional forms of
+    `forward_never_crashes_tcp` / `deliverable_is_forwarded_tcp`.** There is a well-formed message whose encoding (which
+    decodes back to it) is longer than 65535 bytes, so `pack_message(…, "tcp")` raises on it (`frameC = none`). That a
+    SMALL compressed message can have such a re-encoding is shown on the real code and the compiled model by the corpus
+    witness of finding F-C26b (5071 bytes in, 80971 bytes out); the kernel cannot evaluate the decoder on inputs of that
+    size in reasonable time, so that instance is not a Lean `example`. -/
+theorem oversize_reencoding_counterexample :
+    ∃ m b', pack noIdna m = some b' ∧ unpack noIdna b' = some m ∧ frameC b' = none := by
+  have hwf : WellFormed noIdna oversizeMsg := by
+    refine ⟨by decide, by decide, by decide, by decide, by decide, by decide, by decide, by decide, ?_, ?_, ?_, ?_⟩
+    · intro q hq; cases hq
+    · intro r hr
+      have hr' : r = ⟨[], 16, 1, 0, bigData⟩ := by simpa [oversizeMsg] using hr
+      subst hr'
+      refine ⟨Or.inl rfl, by decide, by decide, by decide, by show bigData.length < 65536; rw [bigData_len]; decide, ?_⟩
+      show rdataPlain 16 bigData = true
+      unfold rdataPlain
+      rw [show layoutOf 16 = none by decide]
+    · intro r hr; cases hr
+    · intro r hr; cases hr
+  obtain ⟨b', hp, hu⟩ := Props.C25.roundtrip noIdna oversizeMsg hwf
+  refine ⟨oversizeMsg, b', hp, hu, ?_⟩
+  have := pack_length_ge hp ⟨[], 16, 1, 0, bigData⟩ (by simp [oversizeMsg])
+  have hlen : ¬ b'.length < 65536 := by
+    have e : (⟨[], 16, 1, 0, bigData⟩ : RR).data.length = 65535 := bigData_len
+    rw [e] at this; omega
+  simp [frameC, hlen]
+
+/-- for a record type without name-bearing layout the specification's rdata IS the raw RDATA: together with
+    `repack_preserves` this is the clause "forwarded byte-for-byte" for TXT, A, AAAA and unknown types -/
+theorem opaque_rdata_is_raw (buf : Bytes) (pos len ty : Nat) (h : DnsRef.layout ty = none) :
+    DnsRef.rdata buf pos len ty = some ((buf.drop pos).take len) := by
+  simp [DnsRef.rdata, h]
 
 end MitmVerif.Props.C26
